@@ -8,7 +8,8 @@ VARIABLE l
 ToSet(s) == {s[i] : i \in 1..Len(s)}
 CfgOfRec(r) == [evenOdd |-> r.cfg.evenOdd, cut |-> r.cfg.cut, cutFact |-> r.cfg.cutFact, xs |-> r.cfg.xs, cval |-> r.cfg.cval,
                 vars |-> ToSet(r.cfg.vars), ivars |-> ToSet(r.cfg.ivars), tol |-> r.cfg.tol, userfuncs |-> ToSet(r.cfg.userfuncs),
-                forbidden |-> ToSet(r.cfg.forbidden), required |-> ToSet(r.cfg.required), listing |-> r.cfg.listing, debug |-> r.cfg.debug]
+                forbidden |-> ToSet(r.cfg.forbidden), required |-> ToSet(r.cfg.required), listing |-> r.cfg.listing, debug |-> r.cfg.debug,
+                removed |-> ToSet(r.cfg.removed), userconsts |-> ToSet(r.cfg.userconsts)]
 Expected(r) == Allowed(r.aut, r.stu, ToSet(r.pos), CfgOfRec(r))
 \* the boxes as laid out by the driver, read back, are the effective summation (same law as in the model)
 BoxesOK(r) == Structured(Boxes(r.stu, r.pos), r.pos, r.aut) = Effective(r.aut, r.stu, ToSet(r.pos))
